@@ -69,6 +69,7 @@ K_F5 = 'C20-F5-ControlProblemWithCounters-eval_h-unconditional'
 K_F6 = 'C20-F6-ocp-absent-null-vtable-entry-crashes'
 K_F7 = 'C20-F7-abi-eval_proj_multipliers-no-default'
 K_F8 = 'C20-F8-DLControlProblem-lacks-required-projections'
+K_F9 = 'C20-F9-DLControlProblem-no-provides_eval_h'
 
 # what the property demands of the loader for each plug-in variant the check builds
 LOAD_EXPECT = {
@@ -258,9 +259,11 @@ def gen_ops(rng, n_sessions, lists, thorough=False):
 
     def dlocp():
         file, reg = rng.choice([k for k in LOAD_EXPECT if k[1].startswith('c20_ocp')])
-        nh = rng.choice([1, 2]); nc = rng.choice([0, 1])
+        nh = rng.choice([0, 1, 2]); nc = rng.choice([0, 1])
         mask = rng.choice([(1 << 13) - 1, rng.getrandbits(13) | 0x281 if nc else rng.getrandbits(13)])
-        ops.append(f'new dlocp {file} {reg} {mask} {nh} {nc} 0')
+        # flags: which of the two optional output-mapping members the plug-in leaves null
+        flags = rng.choice([0, 0, 0, 1, 2, 3])
+        ops.append(f'new dlocp {file} {reg} {mask} {nh} {nc} {flags}')
         ops.extend(session_body(rng, OCP_ALL, lambda: ocp_args(rng, nh, nc), rng.choice([4, 12]), 0.2))
 
     # deterministic part: every native instantiation, every load variant, the reset scenario, single-bit plug-ins
@@ -276,6 +279,11 @@ def gen_ops(rng, n_sessions, lists, thorough=False):
     i, has, prov = ocps[0]
     ops += [f'new ocp {i} {has} {prov} 0 1 0', 'create', 'prov 0'] + [
         f'call 0 {f} {ocp_args(rng, 1, 0)}' for f in ('eval_f', 'eval_constr', 'get_D_N', 'eval_add_R_prod_masked', 'eval_h')]
+    # OCP plug-ins that omit eval_h / eval_h_N (optional in ControlProblemVTable): without outputs (nh = 0) and
+    # with outputs (nh = 1, where the documented answer is a constructor error)
+    for nh, fl in ((0, 1), (0, 2), (0, 3), (1, 3), (1, 1)):
+        ops += [f'new dlocp ocp c20_ocp_register {(1 << 13) - 1} {nh} 0 {fl}', 'create', 'prov 0'] + [
+            f'call 0 {f} {ocp_args(rng, nh, 0)}' for f in ('eval_h', 'eval_h_N', 'eval_f', 'eval_l_N')] + ['cnt 0']
     i, has, prov = natives[1]
     a = nlp_args(rng, 2, 2)
     ops += [f'new native {i} {has} {prov} 0 2 2', 'create', 'copy 0', f'call 0 eval_f {a}', f'call 1 eval_f {a}',
@@ -360,6 +368,13 @@ class Mon:
                     o['asis'][c] += 1
 
 
+def omitted_h(s):
+    """the output-mapping members an OCP plug-in session leaves null (flags bit 0: eval_h, bit 1: eval_h_N)"""
+    if s.get('kind') != 'dlocp':
+        return []
+    return [f for b, f in ((1, 'eval_h'), (2, 'eval_h_N')) if s.get('flags', 0) & b]
+
+
 def parse_call(out):
     """'<st> log=<l> cnt=<c> ## W <vals> | D <st> <log> <vals> [| R <st> <log> <vals>]'"""
     head, _, tail = out.partition(' ## ')
@@ -401,13 +416,21 @@ def monitor(op, out, st):
             s['alive'] = out.startswith('ok')
             if exp is None:
                 return None
-            if kind == 'dlocp' and exp.startswith('ok') and s['m'] > 0:
-                # documented: nc > 0 makes get_D / eval_constr / eval_grad_constr_prod mandatory
+            need = []
+            if kind == 'dlocp' and exp.startswith('ok'):
+                # documented: nc > 0 makes get_D / eval_constr / eval_grad_constr_prod mandatory, nh > 0 eval_h,
+                # nh_N > 0 eval_h_N (ControlProblemVTable's constructor, in this order)
                 need = [f for f in ('get_D', 'eval_constr', 'eval_grad_constr_prod')
-                        if not (s['mask'] >> OCP_BITS.index(f)) & 1]
+                        if s['m'] > 0 and not (s['mask'] >> OCP_BITS.index(f)) & 1]
+                need += [f for f in omitted_h(s) if s['n'] > 0]
                 if need:
                     exp = 'err:missing:' + need[0]
             if out != exp:
+                if kind == 'dlocp' and need and need[0] in ('eval_h', 'eval_h_N') and out.startswith('ok'):
+                    return (f'OCP plug-in with nh = {s["n"]} > 0 whose table omits {need[0]}: the documented answer is the '
+                            f'constructor error "missing \'{need[0]}\'", but TypeErasedControlProblem over DLControlProblem '
+                            f'is constructed ({out}): DLControlProblem has no provides_{need[0]}, the entry counts as provided',
+                            K_F9)
                 if (s['file'], s['reg']) == ('nlp', 'c20_badversion') and out == 'ok warned=1':
                     return ('ABI mismatch reported by <name>_version() is not a load failure: the plug-in loads '
                             f'({out}; the loader prints that the version function is missing)', K_F4)
@@ -488,6 +511,10 @@ def monitor(op, out, st):
                     if (s['prov_mask'] >> hp) & 1 and not (s['prov_mask'] >> h) & 1 and not (s['pv'] >> hp) & 1:
                         return ('counted wrapper reports eval_hess_ψ_prod as provided although the problem\'s '
                                 'provides_eval_hess_ψ_prod() returns false (problem has no provides_eval_hess_ψ)', K_F3)
+                if s['kind'] == 'dlocp' and diff and set(diff) <= set(omitted_h(s)):
+                    return (f'OCP plug-in whose table omits {diff}: the loader (and the counted wrapper around it) reports '
+                            f'them as provided ({head}), the plug-in\'s table says absent ({o}); DLControlProblem has no '
+                            f'provides_eval_h / provides_eval_h_N', K_F9)
                 if s['ocp'] and set(diff) <= {'eval_h', 'eval_h_N'}:
                     s['f5'] = True
                     return (f'counted OCP wrapper reports {diff} as provided although the problem\'s provides_ '
@@ -502,6 +529,11 @@ def monitor(op, out, st):
         W, D, R = r['W'], r.get('D'), r.get('R')
         msgs = []
         keyed = None
+        if s['kind'] == 'dlocp' and fn in omitted_h(s) and D is not None and D['st'] == 'crash':
+            return (f'OCP plug-in whose table omits {fn}: TypeErasedControlProblem over DLControlProblem reports it as '
+                    f'provided and calling it jumps through the null table member ({D["vals"]}; through the counting '
+                    f'wrapper: {W["st"]}); documented for an omitted optional function: not_implemented_error("{fn}")'
+                    + (f' (reference over the raw table: {R["st"]})' if R is not None else ''), K_F9)
         # (a) the loader / function-object class against the direct reference
         if R is not None and D is not None and (D['st'], D['log'], D['vals']) != (R['st'], R['log'], R['vals']):
             msgs.append(f'{s["kind"]}: {fn} through the loader/class gives ({D["st"]}, ran {D["log"]}, {D["vals"][:80]}), '
@@ -626,7 +658,9 @@ def main(argv):
     rep.cov['trusted_base'] = [
         'Lean 4.33 kernel + Mathlib tactics (axioms: propext, Classical.choice, Quot.sound)',
         'gen/gen_c20.py (regex/brace-matching translator of the one-line forwarding methods, provides_ bodies, '
-        'vtable defaults, dl-problem.cpp forwarding lines, constructor check list, dl-problem.h typedefs)',
+        'vtable defaults, dl-problem.cpp forwarding lines, constructor check list, dl-problem.h typedefs; and, read '
+        'independently of those: the fields of the two C structs, the vtable structs\' declared members, the type-erased '
+        'classes\' member lists and dispatch definitions, the text of the two ALPAQA_TE_*_METHOD macros)',
         'hand models in Alpaqa/Model/C20.lean (counter heap, resolveNLP/resolveOCP = default composition of '
         'type-erased-problem.tpp / ocproblem.tpp, loader interpreter) tied by op-sequence correspondence on the '
         'explored sequences only',
@@ -639,10 +673,11 @@ def main(argv):
         'native class template instantiations (HAS, PROV masks from the harness `list`, random run-time provides values), '
         'FunctionalProblem (all 64 function-object subsets in thorough), C-ABI plug-ins (table chosen by bitmask: '
         'single bits, random subsets, thorough: all subsets of the 10 interacting entries × m∈{0,2}), every load-failure '
-        'variant, OCP natives and OCP plug-ins; distinct = distinct call lines')
+        'variant, OCP natives and OCP plug-ins (incl. tables that omit eval_h / eval_h_N, nh = 0 and nh > 0); '
+        'distinct = distinct call lines')
     rep.assumptions = ['mask lengths of the masked OCP functions are fixed by convention between harness and plug-in '
                        '(the C ABI does not carry them)']
-    ps = C.proof_stage(rep, PID, ['gen_c20.py'], ['Alpaqa.Props.C20'], driver='drv_c20',
+    ps = C.proof_stage(rep, PID, ['gen_c20.py'], ['Alpaqa.Props.C20', 'Alpaqa.Props.C20_Coverage'], driver='drv_c20',
                        extra_sources=['Alpaqa/Model/C20.lean', 'Alpaqa/Gen/C20.lean', 'Driver/C20.lean'])
     broken = list(ps['broken'])
 
